@@ -729,13 +729,13 @@ def exit_coverage(facts, summ, fn, op_pred, pred, key):
                 proxy_body_pos[b.u] = pos
             for a in node['a']:
                 for g in lambdas_of(a):
-                    (on_exc if dismisses(m) else always).append((pos, g))
+                    (on_exc if dismisses(m) else always).append((pos, g, None))
     for pos, s, node in fn.stmt_elems(('decl',)):
         for v in node['vars']:
             if 'raii_guard' in (v.get('cls') or v.get('ty') or '') and v.get('init', -1) >= 0:
                 dis = [c for c in calls_named(fn, ('dismiss',)) if fn.n(fn.strip(c[2].get('obj', -1))).get('v') == v['v']]
                 for g in lambdas_of(v['init']):
-                    (on_exc if dis else always).append((pos, g))
+                    (on_exc if dis else always).append((pos, g, v['v']))
     # local lambdas referenced by name: `auto l = [&]{..}; try_call(body).on_completion(l)` - resolve variables initialised by a lambda
     named = {}
     for pos, s, node in fn.stmt_elems(('decl',)):
@@ -759,7 +759,7 @@ def exit_coverage(facts, summ, fn, op_pred, pred, key):
                 for x in fn.subtree(a):
                     nd = fn.nodes[x]
                     if nd.get('k') == 'var' and nd.get('v') in named:
-                        (on_exc if dismisses(m) else always).append((pos, named[nd['v']]))
+                        (on_exc if dismisses(m) else always).append((pos, named[nd['v']], None))
     # local objects with a destructor that (conditionally) runs the epilogue: a hand-written scope guard.  The automatic
     # destructor runs on every exit of the scope, normal or exceptional, once the object is constructed
     for pos, s, node in fn.stmt_elems(('decl',)):
@@ -768,7 +768,7 @@ def exit_coverage(facts, summ, fn, op_pred, pred, key):
             for e in dts:
                 g = facts.fns.get(e.get('fn'))
                 if g is not None and may(g):
-                    always.append((pos, g))
+                    always.append((pos, g, v['v']))
                     break
     ops = []                      # (position in fn, node or None)
     for b, i, e in fn.iter_elems():
@@ -784,8 +784,23 @@ def exit_coverage(facts, summ, fn, op_pred, pred, key):
     def elem_may(pos, e):
         return summ.elem_may(fn, pos, e, key, pred)
     for opos, onode in ops:
-        armed_always = [g for p_, g in always if may(g) and (p_ == opos or fn.can_reach(p_, opos))]
-        armed_exc = [g for p_, g in on_exc if may(g) and (p_ == opos or fn.can_reach(p_, opos))]
+        def armed(p_, var):
+            # a try_call proxy covers its own body only (operations of the body are mapped to the position of the proxy call);
+            # a guard object covers what is reached from its declaration before its automatic destructor runs (a guard declared
+            # later in a loop body does not cover the start of the next iteration)
+            if var is None:
+                return p_ == opos
+            if p_ == opos:
+                return False
+            def gone(q, e, var=var):
+                # the guard is over: its automatic destructor ran, or it was dismissed
+                if isinstance(e, dict):
+                    return e.get('d') == 'auto' and e.get('v') == var
+                nd = fn.nodes[e]
+                return nd.get('k') == 'call' and (fn.callee(e) or {}).get('n') == 'dismiss' and fn.n(fn.strip(nd.get('obj', -1))).get('v') == var
+            return fn.can_reach(p_, opos, stop_elem=gone)
+        armed_always = [g for p_, g, var in always if may(g) and armed(p_, var)]
+        armed_exc = [g for p_, g, var in on_exc if may(g) and armed(p_, var)]
         n_ok = bool(armed_always) or every_path_passes(fn, opos, elem_may)[0]
         e_ok = bool(armed_always) or bool(armed_exc)
         if not e_ok and onode is not None and onode.get('tr') is not None:
